@@ -632,6 +632,8 @@ def gen_iwv_case(rng, big=False):
     ax = axis % len(shape)
     if pmode == "full":
         cols = [gen_profile_p(rng, n)[1] for _ in range(total // n)]
+        if len(cols) >= 3 and rng.random() < 0.4:
+            cols[-1] = list(cols[0])      # a cyclic point: the last column repeats the first one
         arr = np.moveaxis(np.asarray(cols).reshape(_drop_axis(shape, ax) + (n,)), -1, ax)
         p = arr.ravel().tolist()
     vcls = rng.choice(["vmr-like", "zeros", "constant", "uniform"])
